@@ -209,8 +209,17 @@ pub fn is_canonical(a: &CscMatrix<f64>) -> bool {
 pub fn dot(a: &[f64], b: &[f64]) -> f64 {
     a.iter().zip(b).map(|(x, y)| x * y).sum()
 }
+/// 2-norm that survives under- and overflow of the squares (the oracle must not lose what it judges)
 pub fn norm2(a: &[f64]) -> f64 {
-    dot(a, a).sqrt()
+    let s = dot(a, a);
+    if s.is_normal() {
+        return s.sqrt();
+    }
+    let m = norm_inf(a);
+    if m == 0.0 || !m.is_finite() {
+        return if a.iter().any(|v| v.is_nan()) { f64::NAN } else { m };
+    }
+    m * a.iter().map(|x| (x / m) * (x / m)).sum::<f64>().sqrt()
 }
 pub fn norm_inf(a: &[f64]) -> f64 {
     a.iter().fold(0.0, |m, v| f64::max(m, v.abs()))
